@@ -669,6 +669,7 @@ func main() {
 			n = 10
 		}
 		x.lineChunkings(r, n)
+		x.replCallbackProtocol(r)
 		r.Extra["line_writer_texts_max_len"] = n
 	}
 	r.Sample(map[string]any{"alphabet": names})
